@@ -174,6 +174,26 @@ CHECKS["C13"] = dict(
     design="3/C13",
 )
 
+CHECKS["C09"] = dict(
+    technique="symbolic tensor execution of the real MPS/MPO constructors, conversions, arithmetic and 1D compression drivers on symbolic entries; z3 identity queries; LAPACK contract stubs (qr/svd/eigh) + hypothesis-elimination certificates checked in QF_LRA",
+    text="Bounded symbolic model checking: for chains of L = 2-4 (5 for generators) with bond 1-2 and site-dependent physical dimensions, open and periodic, in every array layout: "
+         "constructors (incl. site subsets), from_dense / to_dense, sums, products, apply / gate_with_mpo, identity and product builders, fill_empty_sites, partial_trace_to_mpo and Schmidt / "
+         "entropy routines denote the dense objects they document for all entry values; direct, dm and zipup compression (both sweep directions, MPS / sum / two-layer / MPO inputs) is exact "
+         "when the cap is not binding, respects a binding cap, and the reported truncation error equals the norm of what was discarded.",
+    note="Trusted: z3, qv engines, LAPACK contracts. Outside: iterative / randomised compression methods (numeric cross-run only), rounding, Hamiltonian builders, other backends, L = 1.",
+    design="3/C09",
+)
+
+CHECKS["C03"] = dict(
+    technique="reflection over the real class hierarchy for (f, f_) partialmethod pairs and binary operators; symbolic tensor execution of each method on object arrays of polynomial entries with before/after deep fingerprints; z3 identity queries and certificates (LAPACK stubs memoised as functions)",
+    text="Bounded symbolic model checking: for all 147 reflected (f, f_) pairs and 5 inherited pairs whose spellings resolve to different functions (107 on symbolic entries, 40 iterative / "
+         "truncating / RNG / dtype methods on concrete data), on rank-3 tensors, 3-tensor loop / chain / multibond / hyper-index networks, 3-site MPS / MPO, 2x2 PEPS / PEPO, small 2D / 3D "
+         "lattices: the plain spelling leaves receiver, earlier copies and arguments unchanged (structure, array identity and content), returns what f_ returns on a copy, and every stored-axis "
+         "permutation of the tensors involved (all 5 on tensors; reversal / rolls on networks) gives the same labelled result; binary operators align by label.",
+    note="Trusted: z3, qv engines, LAPACK contracts. Outside: argument values beyond the 1-3 tuples per method in the table, larger receivers, rounding. One known finding (isometrize column order).",
+    design="3/C03",
+)
+
 NA = {}
 
 
